@@ -16,11 +16,18 @@ git -C /repo worktree prune
 git -C /repo worktree add --detach $WT HEAD -q || exit 2
 out=$ROOT/verify.tsv
 : > $out
-for d in $ROOT/C*/out/[abc]; do
-  id=$(basename $(dirname $(dirname $d))); x=$(basename $d)
+# two layouts: <root>/<id>/out/<x>/ (as the sub-agents deliver) and <root>/<id>-<x>/ (as stored in /verif/seeded,
+# demos named *_test.go.txt)
+for d in $ROOT/C*/out/[abc] $ROOT/C??-?; do
   [ -f $d/patch.diff ] || continue
+  case $d in
+    */out/*) id=$(basename $(dirname $(dirname $d))); x=$(basename $d);;
+    *) b=$(basename $d); id=${b%-*}; x=${b#*-};;
+  esac
   cd $WT && git checkout -q -- . && git clean -fdq
-  demo=$(ls $d/*_test.go 2>/dev/null | head -1)
+  rm -rf $SV/demo; mkdir -p $SV/demo
+  for t in $d/*_test.go $d/*_test.go.txt; do [ -f $t ] && cp $t $SV/demo/$(basename ${t%.txt}); done
+  demo=$(ls $SV/demo/*_test.go 2>/dev/null | head -1)
   [ -n "$demo" ] || { echo -e "$id\t$x\tno-demo" >> $out; continue; }
   pkgdir=.
   if grep -q "^package sshfx" $demo; then pkgdir=internal/encoding/ssh/filexfer; fi
